@@ -37,6 +37,25 @@ LOCX = Interner()
 FLAT_BAD = (-9,) * 9
 
 RD_T = {0: 50, 1: 100, 2: 200, 3: 500, 4: 1000, 5: 5000, 6: 10000}
+SHAPED_TOK = 5000        # tokens from here on select a message shape (audit round)
+
+
+def message_of(typ: int, tok: int) -> dict:
+    """the message an add / update operation carries. Tokens >= SHAPED_TOK select one of four shapes with different
+    key sets (optional parts present / absent), so that an update that merges into the stored message instead of
+    replacing it leaves a stale key behind - flat_stored then reports the content token -1"""
+    m = simple_message(typ, tok)
+    if tok >= SHAPED_TOK:
+        body = next(v for k, v in m.items() if k != "header")
+        shape = tok % 4
+        if shape == 1:
+            body["optionalA"] = {"value": tok, "flag": True}
+        elif shape == 2:
+            body["optionalB"] = [tok, "x"]
+            m["extension"] = {"note": "n%d" % tok}
+        elif shape == 3:
+            del body["token"]
+    return m
 
 
 # --------------------------------------------------------------------------------------------
@@ -49,7 +68,7 @@ def flat_stored(d) -> tuple:
         msg = d["dataObject"]
         typ = type_of_message(msg)
         tok = msg["header"]["stationId"]
-        if cjson(msg) != cjson(simple_message(typ, tok)):
+        if cjson(msg) != cjson(message_of(typ, tok)):
             tok = -1
         return (int(d["application_id"]), int(d["timestamp"]), int(rp["latitude"]), int(rp["longitude"]),
                 int(rp["altitude"]["altitudeValue"]), LOCX(location_extra_of(d["location"])),
@@ -95,13 +114,13 @@ def exec_impl(case):
                 elif k == "add":
                     req = AddDataProviderReq(o["aid"], TimestampIts(o["ts"]),
                                              make_location(o["lat"], o["lon"], o["alt"], o["extra"]),
-                                             simple_message(o["typ"], o["tok"]), TimeValidity(o["val"]))
+                                             message_of(o["typ"], o["tok"]), TimeValidity(o["val"]))
                     r = lut.if3.add_provider_data(req)
                     out = [int(r.data_object_id)]
                 elif k == "update":
                     req = UpdateDataProviderReq(o["aid"], o["id"], TimestampIts(its_ms(VCLOCK.ms)),
                                                 make_location(0, 0, 0, dict(smc=0, smo=0, smic=0, ac=0, radius=0, rd=0, td=0)),
-                                                simple_message(o["typ"], o["tok"]), TimeValidity(0))
+                                                message_of(o["typ"], o["tok"]), TimeValidity(0))
                     r = lut.if3.update_provider_data(req)
                     out = [int(r.result)]
                 elif k == "delete":
@@ -225,6 +244,7 @@ def oracle(case, trace):
             ran_gc = must_collect = True
             explicit = True
         elif k == "reg_prov":
+            _registration_oracle(fail, i, o, out, "provider")
             if out == [0]:
                 reg_p.add(o["aid"])
         elif k == "dereg_prov":
@@ -233,6 +253,7 @@ def oracle(case, trace):
             if out == [0]:
                 reg_p.discard(o["aid"])
         elif k == "reg_cons":
+            _registration_oracle(fail, i, o, out, "consumer")
             if out == [0]:
                 reg_c.add(o["aid"])
         elif k == "dereg_cons":
@@ -318,6 +339,8 @@ def oracle(case, trace):
                     else:
                         fail("request_result_differs", i, "unfiltered request does not return exactly the stored objects "
                              "of the requested types", want[:28], out[:28])
+            if out[:1] != [0] and len(out) > 1:
+                fail("refused_request_returned_data", i, "a refused request carries data objects", out[:1], out[:10])
             if obs != prev["store"]:
                 fail("request_effect", i, "a request changed the store")
         # ---- every stored object against the expectation ---------------------------------
@@ -372,6 +395,20 @@ def _chunks(flat):
     return [tuple(flat[i:i + 9]) for i in range(0, len(flat), 9)]
 
 
+def _registration_oracle(fail, i, o, out, role):
+    """what holds for a registration under every reading of the interface: an application with one of the 21 ITS-AIDs
+    that lists its own identifier among the permissions is accepted; an identifier outside 1..21 or an empty
+    permission list is refused (the special cases DENM / SPATEM / MAPEM with foreign permissions are left to the model)"""
+    valid = isinstance(o["aid"], int) and 1 <= o["aid"] <= 21
+    if out == [0]:
+        if not valid or not o["perms"]:
+            fail("invalid_registration_accepted", i, f"{role} registration with an invalid ITS-AID or without permissions "
+                 f"was accepted", "refused", out)
+    elif valid and o["aid"] in o["perms"]:
+        fail("registration_refused", i, f"{role} registration of a valid ITS-AID that holds the permission for its own "
+             f"identifier was refused", [0], out)
+
+
 # --------------------------------------------------------------------------------------------
 # generation
 
@@ -380,6 +417,13 @@ BAD_AIDS = (0, 22, 36, -1)
 TYPES = (2, 2, 2, 1, 1, 16, 16, 3, 6, 14, 21, 0)
 ADVANCES = (0, 1, 250, 499, 500, 501, 999, 1000, 1001, 1500, 2000, 2500, 5000, 10000, 60000)
 VALIDITIES = (0, 0, 1, 1, 2, 3, 5, 10, 50, 600, 100000)
+# audit round, style "wide": every ITS-AID and data object type, location variants, long validities and clock advances
+AIDS_W = tuple(range(1, 22))
+TYPES_W = tuple(range(0, 22))
+ADVANCES_W = ADVANCES + (60000, 600000, 3600000, 86400000, 10 ** 8, 2 ** 32, 5 * 10 ** 9)
+VALIDITIES_W = (0, 1, 2, 3, 59, 60, 600, 3600, 86400, 100000, 4294967, 4294968, 5 * 10 ** 6, 2 ** 31, 10 ** 9)
+SHAPES_W = ({}, {}, {"rect": [20, 30, 900]}, {"ell": [7, 5, {"direction": 7200}]}, {"rect": [1, 2, {"direction": 0}], "ell": [3, 4, 3601]},
+            {"circle": False, "rect": [5, 5, 0]}, {"circle": False}, {"circle": False, "ell": [9, 8, {"direction": 21600}]})
 
 
 def gen_case(rng, n, style="mixed"):
@@ -394,10 +438,30 @@ def gen_case(rng, n, style="mixed"):
     ops = []
     g_p, g_c = set(), set()      # generator's guess of the registries
     g_live = []                  # generator's guess of live identifiers
+    g_types = {}                 # generator's guess of the type stored under an identifier (style "wide")
     g_next = 0
-    tok = 100
+    wide = style == "wide"
+    tok = SHAPED_TOK if wide else 100
     thr = 20001 if rd == 7 else RD_T[rd]
-    far_only = style == "far"
+    far_only = style in ("far", "wide")
+    aids = AIDS_W if wide else AIDS
+    types_pool = TYPES_W if wide else TYPES
+    advances = ADVANCES_W if wide else ADVANCES
+
+    def perms_of(aid):
+        other = rng.choice(AIDS_W)
+        return rng.choice(([aid], [aid], [aid, other], [other, aid], [other], [], [aid, 99], [0], [other, other]))
+
+    def validity_and_ts():
+        """(validity, timestamp): besides the short ones, long validities that lapse only after a long advance, the
+        timestamp 0 (validity chosen so that the object lapses around the current time) and very old timestamps"""
+        x = rng.random()
+        if x < 0.15:
+            return (now // 1000) + rng.choice((-2, -1, 0, 1, 2, 60)), 0
+        if x < 0.3:
+            age = rng.choice((10 ** 7, 86400000, 3600000))
+            return age // 1000 + rng.choice((-1, 0, 1, 5)), now - age + rng.choice((0, -1, 1, 999))
+        return rng.choice(VALIDITIES_W), now + rng.choice((0, 0, -1, -999, -1000, -1001, 1, 999, 2000, -60000))
 
     def position():
         mode = rng.random()
@@ -420,55 +484,65 @@ def gen_case(rng, n, style="mixed"):
     for _ in range(n):
         x = rng.random()
         if len(ops) < 4 and x < 0.8:
-            aid = rng.choice(AIDS[:3])
+            aid = rng.choice(aids if wide else AIDS[:3])
             kind = rng.choice(("reg_prov", "reg_cons"))
             ops.append({"op": kind, "aid": aid, "perms": [aid]})
             (g_p if kind == "reg_prov" else g_c).add(aid)
             continue
         if x < 0.05:
-            aid = rng.choice(AIDS + BAD_AIDS)
+            aid = rng.choice(aids + BAD_AIDS)
             perms = rng.choice(([aid], [aid, 2], [2], [], [1, 16], [5]))
             perms = [p for p in perms if 1 <= p <= 21]
+            if wide:
+                perms = perms_of(aid)
             ops.append({"op": "reg_prov", "aid": aid, "perms": perms})
             if 1 <= aid <= 21 and perms and (aid in perms or aid == 1):
                 g_p.add(aid)
         elif x < 0.07:
-            aid = rng.choice(tuple(g_p) + AIDS[:2] + BAD_AIDS[:1])
+            aid = rng.choice(tuple(sorted(g_p)) + aids[:2] + BAD_AIDS[:1]) if wide else rng.choice(tuple(g_p) + AIDS[:2] + BAD_AIDS[:1])
             ops.append({"op": "dereg_prov", "aid": aid})
             g_p.discard(aid)
         elif x < 0.11:
-            aid = rng.choice(AIDS + BAD_AIDS)
+            aid = rng.choice(aids + BAD_AIDS)
             perms = rng.choice(([aid], [aid, 16], [2], [], [4]))
             perms = [p for p in perms if 1 <= p <= 21]
+            if wide:
+                perms = perms_of(aid)
             ops.append({"op": "reg_cons", "aid": aid, "perms": perms})
             if 1 <= aid <= 21 and perms and (aid in perms or aid in (1, 4, 5)):
                 g_c.add(aid)
         elif x < 0.125:
-            aid = rng.choice(tuple(g_c) + AIDS[:2] + BAD_AIDS[:1])
+            aid = rng.choice(tuple(sorted(g_c)) + aids[:2] + BAD_AIDS[:1]) if wide else rng.choice(tuple(g_c) + AIDS[:2] + BAD_AIDS[:1])
             ops.append({"op": "dereg_cons", "aid": aid})
             g_c.discard(aid)
         elif x < 0.45:
             lat, lon, alt = position()
             tok += 1
-            aid = rng.choice(tuple(g_p)) if g_p and rng.random() < 0.85 else rng.choice(AIDS[:4] + (36,))
+            aid = rng.choice(tuple(sorted(g_p) if wide else g_p)) if g_p and rng.random() < 0.85 else rng.choice(AIDS[:4] + (36,))
             ops.append({"op": "add", "aid": aid,
                         "ts": now + rng.choice((0, 0, 0, -1, -999, -1000, -1001, -5000, 1, 999, 2000, -60000)),
                         "lat": lat, "lon": lon, "alt": alt,
                         "extra": {"smc": rng.choice((0, 7, 4095)), "smo": rng.choice((0, 900, 3601)),
                                   "smic": rng.choice((1, 9, 4094)), "ac": rng.choice((0, 3, 15)),
                                   "radius": rng.choice((0, 100, 2000)), "rd": rng.randrange(8), "td": rng.randrange(4)},
-                        "val": rng.choice(VALIDITIES), "typ": rng.choice(TYPES), "tok": tok})
+                        "val": rng.choice(VALIDITIES), "typ": rng.choice(types_pool), "tok": tok})
+            if wide:
+                ops[-1]["val"], ops[-1]["ts"] = validity_and_ts()
+                ops[-1]["extra"].update(rng.choice(SHAPES_W))
             if aid in g_p:
                 g_live.append(g_next)
+                g_types[g_next] = ops[-1]["typ"]
                 g_next += 1
                 if len(g_live) > 40:
                     g_live.pop(0)
         elif x < 0.56:
             tok += 1
-            aid = rng.choice(tuple(g_p)) if g_p and rng.random() < 0.8 else rng.choice(AIDS[:4] + (36,))
-            ops.append({"op": "update", "aid": aid, "id": pick_id(), "typ": rng.choice(TYPES), "tok": tok})
+            aid = rng.choice(tuple(sorted(g_p) if wide else g_p)) if g_p and rng.random() < 0.8 else rng.choice(AIDS[:4] + (36,))
+            ops.append({"op": "update", "aid": aid, "id": pick_id(), "typ": rng.choice(types_pool), "tok": tok})
+            if wide and g_types and rng.random() < 0.7:       # mostly an update with a message of the stored type
+                ops[-1]["typ"] = g_types.get(ops[-1]["id"], ops[-1]["typ"])
         elif x < 0.64:
-            aid = rng.choice(tuple(g_p)) if g_p and rng.random() < 0.8 else rng.choice(AIDS[:4] + (36,))
+            aid = rng.choice(tuple(sorted(g_p) if wide else g_p)) if g_p and rng.random() < 0.8 else rng.choice(AIDS[:4] + (36,))
             oid = pick_id()
             ops.append({"op": "delete", "aid": aid, "id": oid})
             if oid in g_live:
@@ -476,11 +550,14 @@ def gen_case(rng, n, style="mixed"):
         elif x < 0.82:
             types = rng.choice(([2], [1], [16], [2, 16], [1, 2, 16], [1, 2, 16], [3, 6, 14, 21], list(range(1, 22)),
                                 list(range(1, 22)), [], [2, 99], [0]))
-            aid = rng.choice(tuple(g_c)) if g_c and rng.random() < 0.85 else rng.choice(AIDS[:4] + (36,))
+            if wide:
+                t1, t2 = rng.choice(TYPES_W[1:]), rng.choice(TYPES_W[1:])
+                types = rng.choice(([t1], [t1], [t1, t2], list(range(1, 22)), [t1, 22], [], [t2, t1, t1]))
+            aid = rng.choice(tuple(sorted(g_c) if wide else g_c)) if g_c and rng.random() < 0.85 else rng.choice(AIDS[:4] + (36,))
             ops.append({"op": "request", "aid": aid,
                         "prio": rng.choice((None, None, None, None, 0, 7, 255, 256, -2)), "types": types})
         elif x < 0.95:
-            ms = rng.choice(ADVANCES)
+            ms = rng.choice(advances)
             ops.append({"op": "advance", "ms": ms})
             now += ms
         else:
@@ -606,11 +683,101 @@ def boundary_cases():
     return cases
 
 
+def boundary_cases_audit():
+    """audit round: sequences for the clauses and range ends the first generators did not reach - every data object
+    type and every ITS-AID (valid, invalid, the ends 0 / 1 / 21 / 22), permission lists, location variants (rectangle,
+    ellipse, no circle, Direction objects), the far end of long validity periods, the timestamp 0, persistence across
+    deregistration / re-registration, and updates between messages with different key sets"""
+    cfg = {"lat": 413800000, "lon": 21100000, "alt": 1000, "rd": 4}
+    ex = {"smc": 1, "smo": 3, "smic": 2, "ac": 0, "radius": 100, "rd": 1, "td": 0}
+    t0 = T0_UTC_MS
+    now = its_ms(t0)
+    tok = [SHAPED_TOK]
+
+    def add(aid, typ, val, ts=None, extra=None, shape=None):
+        tok[0] += 1
+        if shape is not None:
+            while tok[0] % 4 != shape:
+                tok[0] += 1
+        return {"op": "add", "aid": aid, "ts": now if ts is None else ts, "lat": cfg["lat"] + 5000000, "lon": cfg["lon"],
+                "alt": cfg["alt"], "extra": dict(ex, **(extra or {})), "val": val, "typ": typ, "tok": tok[0]}
+
+    def req(types, aid=2):
+        return {"op": "request", "aid": aid, "prio": None, "types": list(types)}
+    reg = [{"op": "reg_prov", "aid": 2, "perms": [2]}, {"op": "reg_cons", "aid": 2, "perms": [2]}]
+    maintain = {"op": "maintain"}
+    cases = []
+    # a. one object of every data object type (and an untyped one); every single-type request, the ends 0 and 22
+    ops = list(reg) + [add(2, t, 1000) for t in range(0, 22)]
+    ops += [req([t]) for t in range(0, 23)] + [req(range(1, 22)), req([21, 1]), req([20, 21, 22]), req([])]
+    ops += [{"op": "update", "aid": 2, "id": t, "typ": t, "tok": SHAPED_TOK + 400 + t} for t in range(0, 22)] + [req(range(1, 22))]
+    cases.append({"cfg": cfg, "t0_utc_ms": t0, "ops": ops})
+    # b. every application identifier from -1 to 23 as provider and as consumer, permission lists
+    for aid in range(-1, 24):
+        other = 7 if aid != 7 else 8
+        ops = [{"op": "reg_prov", "aid": aid, "perms": []}, {"op": "reg_cons", "aid": aid, "perms": []},
+               add(aid, 2, 1000), req([2], aid),
+               {"op": "reg_prov", "aid": aid, "perms": [other]}, {"op": "reg_cons", "aid": aid, "perms": [other]},
+               add(aid, 2, 1000), req([2], aid),
+               {"op": "reg_prov", "aid": aid, "perms": [other, aid]}, {"op": "reg_cons", "aid": aid, "perms": [other, aid, 99]},
+               add(aid, 2, 1000), add(aid, 1, 1000), req([2], aid), req([1, 2], aid),
+               {"op": "dereg_prov", "aid": aid}, {"op": "dereg_cons", "aid": aid}, add(aid, 2, 1000), req([2], aid),
+               {"op": "reg_prov", "aid": aid, "perms": [aid]}, {"op": "reg_cons", "aid": aid, "perms": [aid]},
+               add(aid, 16, 1000), req([1, 2, 16], aid), {"op": "dereg_prov", "aid": aid}, {"op": "dereg_prov", "aid": aid},
+               {"op": "dereg_cons", "aid": aid}, {"op": "dereg_cons", "aid": aid}]
+        cases.append({"cfg": cfg, "t0_utc_ms": t0, "ops": ops})
+    # c. location variants
+    ops = list(reg)
+    for shp in SHAPES_W:
+        ops += [add(2, 2, 1000, extra=shp), req([2])]
+    ops += [{"op": "update", "aid": 2, "id": 3, "typ": 2, "tok": SHAPED_TOK + 500}, req([2]), {"op": "advance", "ms": 1500}, maintain, req([2])]
+    cases.append({"cfg": cfg, "t0_utc_ms": t0, "ops": ops})
+    # d. the far end of long validity periods: kept through the last valid second, collected in the next one
+    for val in (59, 600, 3600, 86400, 100000, 4294967, 4294968, 5 * 10 ** 6, 2 ** 31):
+        for reactive in (False, True):
+            gc = add(2, 1, 10 ** 10) if reactive else maintain
+            ops = list(reg) + [add(2, 2, val), req([2]), {"op": "advance", "ms": val * 1000 - 1000}, dict(gc), req([2]),
+                               {"op": "advance", "ms": 1000}, dict(gc, tok=tok[0] + 7) if reactive else maintain, req([2]),
+                               {"op": "advance", "ms": 999}, maintain, req([2]), {"op": "advance", "ms": 1}, maintain, req([2]),
+                               add(2, 2, val), req([2])]
+            cases.append({"cfg": cfg, "t0_utc_ms": t0, "ops": ops})
+    # e. the timestamp 0 (a value, not "no timestamp"): the object lapses when validity seconds have passed since 0
+    for d in (-1, 0, 1, 2):
+        val = now // 1000 + d
+        ops = list(reg) + [add(2, 2, val, ts=0), req([2]), maintain, req([2])]
+        for _ in range(3):
+            ops += [{"op": "advance", "ms": 1000}, maintain, req([2])]
+        cases.append({"cfg": cfg, "t0_utc_ms": t0, "ops": ops})
+        cases.append({"cfg": cfg, "t0_utc_ms": t0 + 300, "ops": list(reg) + [add(2, 2, val, ts=0), {"op": "advance", "ms": 1000},
+                                                                             add(2, 1, 50, ts=now + 1300), req([1, 2]),
+                                                                             {"op": "advance", "ms": 1000}, add(2, 1, 50, ts=now + 2300), req([1, 2])]})
+    # f. objects survive the deregistration and the re-registration of their provider and of the consumer
+    ops = list(reg) + [add(2, 2, 1000), add(2, 16, 1000), {"op": "dereg_prov", "aid": 2}, req([2, 16]), add(2, 2, 1000),
+                       {"op": "reg_prov", "aid": 2, "perms": [2]}, req([2, 16]), add(2, 2, 1000), req([2, 16]),
+                       {"op": "dereg_cons", "aid": 2}, req([2, 16]), {"op": "reg_cons", "aid": 2, "perms": [2]}, req([2, 16]),
+                       {"op": "reg_prov", "aid": 2, "perms": [2]}, {"op": "reg_cons", "aid": 2, "perms": [2]}, req([2, 16]),
+                       {"op": "advance", "ms": 2000}, maintain, req([2, 16])]
+    cases.append({"cfg": cfg, "t0_utc_ms": t0, "ops": ops})
+    # g. an update replaces the whole message: between every pair of message shapes
+    ops = list(reg)
+    k = 0
+    for s1 in range(4):
+        for s2 in range(4):
+            a = add(2, 2, 1000, shape=s1)
+            u = add(2, 2, 0, shape=s2)
+            ops += [a, {"op": "update", "aid": 2, "id": k, "typ": 2, "tok": u["tok"]}, req([2])]
+            k += 1
+    cases.append({"cfg": cfg, "t0_utc_ms": t0, "ops": ops})
+    return cases
+
+
 def run(ctx):
     ctx.rule = ("seeded operation sequences (register/deregister provider and consumer, add, update, delete, unfiltered "
                 "request, clock advance, explicit maintenance; 10-400 operations) over application ids CAM/DENM/VAM/POI/"
                 "IVIM/MCM/PAM and invalid ones, message types CAM/DENM/VAM/POI/IVIM/CPM/PAM/untyped, validity 0 s .. 100000 s, "
-                "objects inside, on the edge of and far outside the LDM's relevance area, executed on a Factory-built LDM "
+                "objects inside, on the edge of and far outside the LDM's relevance area; style 'wide': all 21 ITS-AIDs and data object "
+                "types, permission lists, locations with rectangle / ellipse / no circle, validity up to 10^9 s, timestamp 0 and very "
+                "old timestamps, clock advances up to 5*10^9 ms, messages with different key sets; executed on a Factory-built LDM "
                 "(Dictionary back-end, reactive maintenance) and on the extracted model; responses, store, next id and both "
                 "registries compared after every operation; evaluations = operations executed; non-trivial = an operation "
                 "that changed the store or a request that returned data, distinct by (sequence, position)")
@@ -623,12 +790,15 @@ def run(ctx):
         check_cases(ctx, [json.load(open(f))], "corpus")
     # 2. boundaries
     check_cases(ctx, boundary_cases(), "boundary")
+    check_cases(ctx, boundary_cases_audit(), "boundary_audit")
     # 3. seeded sequences
     rng = ctx.rng
     if ctx.tier == "quick":
-        plan = [(150, (10, 60), "mixed"), (100, (60, 200), "mixed"), (40, (200, 400), "mixed"), (100, (30, 200), "far")]
+        plan = [(150, (10, 60), "mixed"), (100, (60, 200), "mixed"), (40, (200, 400), "mixed"), (100, (30, 200), "far"),
+                (100, (20, 120), "wide")]
     else:
-        plan = [(1500, (10, 60), "mixed"), (1000, (60, 200), "mixed"), (400, (200, 400), "mixed"), (1000, (30, 300), "far")]
+        plan = [(1500, (10, 60), "mixed"), (1000, (60, 200), "mixed"), (400, (200, 400), "mixed"), (1000, (30, 300), "far"),
+                (1000, (20, 300), "wide")]
     for count, (lo, hi), style in plan:
         for start in range(0, count, 50):
             cases = [gen_case(rng, rng.randrange(lo, hi + 1), style) for _ in range(min(50, count - start))]
